@@ -416,6 +416,13 @@ func TestVerifC03(t *testing.T) {
 	deaths := []death{
 		{"read-timeout", func(env *rcEnv, req *verifsim.Request) {}},
 		{"undecodable-header", func(env *rcEnv, req *verifsim.Request) { env.sc.SendRaw([]byte{0, 0, 0, 3, 0xff, 0xff, 0xff}) }},
+		// the other shapes of a frame whose header cannot be read: a well-formed length prefix followed by bytes that are no
+		// protobuf message; a header length that points beyond the frame; a frame of no bytes at all; a header of wire type
+		// garbage after a valid first field
+		{"undecodable-header:valid-length-invalid-protobuf", func(env *rcEnv, req *verifsim.Request) { env.sc.SendRaw([]byte{0, 0, 0, 3, 2, 0xff, 0xff}) }},
+		{"undecodable-header:length-beyond-the-frame", func(env *rcEnv, req *verifsim.Request) { env.sc.SendRaw([]byte{0, 0, 0, 2, 9, 8}) }},
+		{"undecodable-header:empty-frame", func(env *rcEnv, req *verifsim.Request) { env.sc.SendRaw([]byte{0, 0, 0, 0}) }},
+		{"undecodable-header:truncated-field", func(env *rcEnv, req *verifsim.Request) { env.sc.SendRaw([]byte{0, 0, 0, 4, 3, 8, 1, 0x12}) }},
 		{"unknown-call-id", func(env *rcEnv, req *verifsim.Request) {
 			env.sc.Send(verifsim.Response{CallID: req.CallID + 1000})
 		}},
